@@ -496,7 +496,7 @@ def check_absorb(ck, mod, ks, label, rulemap):
     return n
 
 
-def check_absorb_small(ck, mod, ks, label, rulemap, maxlen=40):
+def check_absorb_small(ck, mod, ks, label, rulemap, maxlen=100):
     """tinyjambu_absorb_N for EVERY size 0..maxlen as straight path(s) (size concrete, data symbolic): whatever the loop structure"""
     klen = int(ks)
     f = mod.fn("tinyjambu_absorb_%s" % ks)
@@ -1341,7 +1341,7 @@ def _small_path(ex, p, f, A, kind, enc, L, klen, names, st):
     return conf, io, memd
 
 
-def check_cipher_small(ck, mod, f, label, rulemap, maxlen=40):
+def check_cipher_small(ck, mod, f, label, rulemap, maxlen=100):
     """every message length 0..maxlen, each evaluated as straight path(s) (length concrete, data symbolic; a test of buffer alignment gives
     one path per class): independent of how the loops are written.  Longer messages are the per-class rules' (generic iteration)"""
     m = FN_RE.match(f.name)
